@@ -411,7 +411,7 @@ func randomScen() scen {
 		room := pageSize - first // multiple of 32
 		// three fillers of 4128 bytes, then a name that would end exactly at the page end
 		fill := 3 * 4128
-		rest := int(room) - fill // bytes left on page 1
+		rest := int(room) - fill                                 // bytes left on page 1
 		exact := sc.pl.add(findName("TE", rest-16, -1, nil))     // record size == rest: reaches the page end -> next page
 		fits := sc.pl.add(findName("TF", rest-16-32, -1, nil))   // one unit less: last record that fits
 		almost := sc.pl.add(findName("TA", rest-16-31, -1, nil)) // rounds up to rest: next page
